@@ -2779,21 +2779,25 @@ impl GlobalInferenceCtx<'_> {
                                                 // under the next parameter.
                                                 current_param = Some(next_param);
                                             } else {
-                                                // `can_fit_into` should return true for unknowns
-                                                assert!(!arg_ty.is_unknown());
-                                                // this will just return an error
-                                                self.diagnostics.push(TyDiagnostic {
-                                                    kind: TyDiagnosticKind::Mismatch {
-                                                        expected: ExpectedTy::Concrete(
-                                                            actual_sub_ty,
-                                                        ),
-                                                        found: arg_ty,
-                                                    },
-                                                    file: self.loc.file(),
-                                                    expr: Some(*arg),
-                                                    range: self.bodies.range_for_expr(*arg),
-                                                    help: None,
-                                                });
+                                                // a type that only *contains* an unknown type
+                                                // (`^undefined_name`) doesn't fit anything.
+                                                // the error that made it unknown has already
+                                                // been reported
+                                                if !arg_ty.is_unknown() {
+                                                    // this will just return an error
+                                                    self.diagnostics.push(TyDiagnostic {
+                                                        kind: TyDiagnosticKind::Mismatch {
+                                                            expected: ExpectedTy::Concrete(
+                                                                actual_sub_ty,
+                                                            ),
+                                                            found: arg_ty,
+                                                        },
+                                                        file: self.loc.file(),
+                                                        expr: Some(*arg),
+                                                        range: self.bodies.range_for_expr(*arg),
+                                                        help: None,
+                                                    });
+                                                }
                                                 current_arg = args_iter.next();
                                             }
                                         } else {
